@@ -117,9 +117,9 @@ func (d *rawDecoder) Scan(ctx context.Context) (DecodedAmmo, error) {
 
 		a := d.pool.Get().(*ammo.RawAmmo)
 		if reqSize != 0 {
-			buff := make([]byte, reqSize)
-			if n, err := io.ReadFull(d.reader, buff); err != nil {
-				return nil, xerrors.Errorf("failed to read ammo with err: %w, at position: %v; tried to read: %v; have read: %v", err, position, reqSize, n)
+			buff, err := readBody(d.reader, reqSize)
+			if err != nil {
+				return nil, xerrors.Errorf("failed to read ammo with err: %w, at position: %v; tried to read: %v; have read: %v", err, position, reqSize, len(buff))
 			}
 
 			a.Setup(buff, tag, position, d.decodedConfigHeaders)
